@@ -68,6 +68,7 @@ class Contract:
         self.expected_dead = tuple(expected_dead)
         self.free_vars = free_vars or {}      # closure variables of a nested function: name -> type spec
         self.store_hooks = store_hooks or {}
+        self.after_yield = None               # lambda eng, st, value: st  - ghost update after every yield
         self.opaque_sub = False               # ``a - b`` on two opaque values is set difference, not arithmetic
         self.attrs = attrs or {}              # dotted attribute expression -> handler(eng, st, fr, k, node) (properties of opaque objects)
         self.loop_ghost = loop_ghost or {}    # loop ordinal -> ghost variables its body may update (default: all)  # name -> handler(eng, st, key, value, node) for ``name[key] = value``
